@@ -1,3 +1,6 @@
 import IsobarV.Sched.Model
 import IsobarV.Util.Parse
 import IsobarV.Sched.Drv
+import IsobarV.Sched.Balance
+import IsobarV.Sched.BalanceOps
+import IsobarV.Props.C02
